@@ -171,7 +171,8 @@ def decoded_program(prog):
         "mode": prog["mode"],
         "features": prog.get("features"),
         "components": {c["name"]: {"template": c.get("_src") or emit.emit_nodes(c["tmpl"], c["name"] if c.get("echo_id") else None),
-                                   "injects": c["injects"], "hooks": c.get("hooks")} for c in prog["comps"]},
+                                   "injects": c["injects"], "hooks": c.get("hooks"),
+                                   **({"data": c["extra_data"]} if c.get("extra_data") else {})} for c in prog["comps"]},
         "page": emit.page_source(prog),
         "context": prog["ctx"],
     }
